@@ -1341,6 +1341,177 @@ theorem evalL_eq_repEval (m : LBqm Rat) (i : LInv m) (x : Label → Rat) : evalL
   unfold iterQuadratic
   rw [hg]; ring
 
+/-! ### calls through `.spin` / `.binary` views keep the invariant (they are compositions of the data-level calls) -/
+
+theorem GInv.addQuadratic_ok {m m' : LBqm Rat} (g : GInv m) (u v : Label) (b : Rat) (h : m.addQuadratic u v b = .ok m') : GInv m' := by
+  have := g.addQuadratic u v b; rw [h] at this; exact this
+
+theorem GInv.removeInteraction_ok {m m' : LBqm Rat} (g : GInv m) (u v : Label) (h : m.removeInteraction u v = .ok m') : GInv m' := by
+  have := g.removeInteraction u v; rw [h] at this; exact this
+
+theorem GInv.removeVariable_ok {m m' : LBqm Rat} (g : GInv m) (v : Label) (h : m.removeVariable v = .ok m') : GInv m' := by
+  have := g.removeVariable v; rw [h] at this; exact this
+
+theorem GInv.vAddLinear {m : LBqm Rat} (g : GInv m) (T : ViewTables Rat) (view : VT) (v : Label) (b : Rat) :
+    GInv (View.addLinear T view m v b) := by
+  unfold View.addLinear
+  by_cases h : view = m.vt
+  · rw [if_pos h]; exact g.addLinear v b
+  · rw [if_neg h]; exact (g.addLinear v _).setOffset _
+
+theorem GInv.vAddVariable {m : LBqm Rat} (g : GInv m) (T : ViewTables Rat) (view : VT) (v : Label) (b : Rat) :
+    GInv (View.addVariable T view m v b) := by
+  unfold View.addVariable LBqm.addVariable
+  exact (g.addLinear v 0).vAddLinear T view v b
+
+theorem GInv.vAddQuadratic_ok {m m' : LBqm Rat} (g : GInv m) (T : ViewTables Rat) (view : VT) (u v : Label) (b : Rat)
+    (h : View.addQuadratic T view m u v b = .ok m') : GInv m' := by
+  unfold View.addQuadratic at h
+  by_cases hv : view = m.vt
+  · rw [if_pos hv] at h; exact g.addQuadratic_ok u v b h
+  · rw [if_neg hv] at h
+    dsimp only at h
+    cases hq : m.addQuadratic u v ((View.tbl T view).addQuadQuad * b) with
+    | error e => rw [hq] at h; cases h
+    | ok d1 =>
+      rw [hq] at h
+      have g1 := g.addQuadratic_ok u v _ hq
+      simp only [bind, Except.bind, pure, Except.pure] at h
+      cases h
+      exact (((g1.addLinear u _).addLinear v _).setOffset _)
+
+theorem GInv.vSetLinear_ok {m m' : LBqm Rat} (g : GInv m) (T : ViewTables Rat) (view : VT) (v : Label) (b : Rat)
+    (h : View.setLinear T view m v b = .ok m') : GInv m' := by
+  unfold View.setLinear at h
+  by_cases hv : view = m.vt
+  · rw [if_pos hv] at h; cases h; exact g.setLinear v b
+  · rw [if_neg hv] at h
+    dsimp only at h
+    cases hq : View.getLinear T view (View.addLinear T view m v 0) v with
+    | error e => rw [hq] at h; cases h
+    | ok cur =>
+      rw [hq] at h
+      simp only [bind, Except.bind, pure, Except.pure] at h
+      cases h
+      exact (g.vAddLinear T view v 0).vAddLinear T view v _
+
+theorem GInv.vSetQuadratic {m : LBqm Rat} (g : GInv m) (T : ViewTables Rat) (view : VT) (u v : Label) (b : Rat) :
+    GInv (View.setQuadratic T view m u v b).1 := by
+  unfold View.setQuadratic
+  dsimp only
+  have g2 := (g.vAddVariable T view u 0).vAddVariable T view v 0
+  generalize View.addVariable T view (View.addVariable T view m u 0) v 0 = d at g2 ⊢
+  try dsimp only
+  cases h1 : View.addQuadratic T view d u v 0 with
+  | error e => exact g2
+  | ok d1 =>
+    have g3 := g2.vAddQuadratic_ok T view u v 0 h1
+    try dsimp only
+    cases h2 : View.getQuadratic T view d1 u v with
+    | error e => exact g3
+    | ok cur =>
+      try dsimp only
+      cases h3 : View.addQuadratic T view d1 u v (b - cur) with
+      | error e => exact g3
+      | ok d2 => exact g3.vAddQuadratic_ok T view u v _ h3
+
+theorem GInv.vRemoveInteraction {m : LBqm Rat} (g : GInv m) (T : ViewTables Rat) (view : VT) (u v : Label) :
+    GInv (View.removeInteraction T view m u v).1 := by
+  unfold View.removeInteraction
+  by_cases hv : view = m.vt
+  · rw [if_pos hv]
+    cases h : m.removeInteraction u v with
+    | error e => exact g
+    | ok d' => exact g.removeInteraction_ok u v h
+  · rw [if_neg hv]
+    cases h1 : View.getQuadratic T view m u v with
+    | error e => exact g
+    | ok q =>
+      try dsimp only
+      have g1 := g.vSetQuadratic T view u v 0
+      cases h2 : View.setQuadratic T view m u v 0 with
+      | mk d1 e =>
+        rw [h2] at g1
+        cases e with
+        | some e => exact g1
+        | none =>
+          try dsimp only
+          cases h3 : d1.removeInteraction u v with
+          | error e => exact g1
+          | ok d2 => exact GInv.removeInteraction_ok g1 u v h3
+
+theorem GInv.foldl_vSetQuadratic {m : LBqm Rat} (g : GInv m) (T : ViewTables Rat) (view : VT) (v : Label) (nb : List (Label × Rat)) :
+    GInv (nb.foldl (fun d p => (View.setQuadratic T view d p.1 v 0).1) m) := by
+  induction nb generalizing m with
+  | nil => exact g
+  | cons p rest ih => exact ih (g.vSetQuadratic T view p.1 v 0)
+
+theorem GInv.vRemoveVariable {m : LBqm Rat} (g : GInv m) (T : ViewTables Rat) (view : VT) (v : Label) :
+    GInv (View.removeVariable T view m v).1 := by
+  unfold View.removeVariable
+  by_cases hv : view = m.vt
+  · rw [if_pos hv]
+    cases h : m.removeVariable v with
+    | error e => exact g
+    | ok d' => exact g.removeVariable_ok v h
+  · rw [if_neg hv]
+    cases h1 : m.neighborhood v with
+    | error e => exact g
+    | ok nb =>
+      try dsimp only
+      have g1 := g.foldl_vSetQuadratic T view v nb
+      generalize nb.foldl (fun d p => (View.setQuadratic T view d p.1 v 0).1) m = d1 at g1 ⊢
+      cases h2 : View.setLinear T view d1 v 0 with
+      | error e => exact g1
+      | ok d2 =>
+        have g2 := g1.vSetLinear_ok T view v 0 h2
+        try dsimp only
+        cases h3 : d2.removeVariable v with
+        | error e => exact g2
+        | ok d3 => exact g2.removeVariable_ok v h3
+
+theorem GInv.vSetOffset_ok {m m' : LBqm Rat} (g : GInv m) (T : ViewTables Rat) (view : VT) (b : Rat)
+    (h : View.setOffset T view m b = .ok m') : GInv m' := by
+  unfold View.setOffset at h
+  by_cases hv : view = m.vt
+  · rw [if_pos hv] at h; cases h; exact g.setOffset b
+  · rw [if_neg hv] at h; cases h; exact g.setOffset _
+
+theorem GInv.vstep {m : LBqm Rat} (g : GInv m) (c : VT × VOp Rat) : GInv (m.vstep c) := by
+  obtain ⟨view, op⟩ := c
+  unfold LBqm.vstep
+  cases op with
+  | addLinear v b => exact g.vAddLinear _ view v b
+  | setLinear v b =>
+    try dsimp only
+    cases h : View.setLinear viewTables view m v b with
+    | error e => exact g
+    | ok m' => exact g.vSetLinear_ok _ view v b h
+  | addVariable v b => exact g.vAddVariable _ view v b
+  | addQuadratic u v b =>
+    try dsimp only
+    cases h : View.addQuadratic viewTables view m u v b with
+    | error e => exact g
+    | ok m' => exact g.vAddQuadratic_ok _ view u v b h
+  | setQuadratic u v b => exact g.vSetQuadratic _ view u v b
+  | removeInteraction u v => exact g.vRemoveInteraction _ view u v
+  | removeVariable v => exact g.vRemoveVariable _ view v
+  | setOffset b =>
+    try dsimp only
+    cases h : View.setOffset viewTables view m b with
+    | error e => exact g
+    | ok m' => exact g.vSetOffset_ok _ view b h
+  | relabel old new => exact g.hstep (.relabel old new)
+  | changeVartype vt => exact g.hstep (.changeVartype vt)
+
+theorem GInv.vfoldl {m : LBqm Rat} (g : GInv m) (calls : List (VT × VOp Rat)) : GInv (calls.foldl LBqm.vstep m) := by
+  induction calls generalizing m with
+  | nil => exact g
+  | cons c rest ih => exact ih (g.vstep c)
+
+/-- every state reached by a history of calls through the model and its `.spin` / `.binary` views satisfies the invariant -/
+theorem GInv.vrun (vt : VT) (calls : List (VT × VOp Rat)) : GInv (LBqm.vrun vt calls) := (GInv.empty vt).vfoldl calls
+
 end LBqm
 
 end En
